@@ -37,6 +37,10 @@ def attribute(run, trace, idx):
     if idx > len(trace):
         return "C18", "end"
     ev = trace[idx - 1]
+    busy = sum(1 for x in trace[:idx - 1] if x["ev"] == "Emit") - sum(1 for x in trace[:idx - 1] if x["ev"] == "ConsumerDone")
+    if ev["ev"] == "Emit" and run["cfg"].get("cons", "future") != "sync" and busy > 0:
+        # whether a second polling loop did it or the one loop did not wait: the source did not wait for its consumer
+        return "C18", "item %s emitted while the consumer of the previous one had not finished (second polling loop, or an emit that is not awaited)" % ev.get("item"), ["C03"]
     return "C18", "%s is not allowed by the specification here (second polling loop / cycle after stop / order)" % ev["ev"]
 
 
